@@ -37,7 +37,10 @@ type Group struct {
 type Stmt struct{ Items []Node }
 type Dict struct{ Pairs [][2]Node }
 type Tag struct{ KV [][2]string }
-type Comment struct{ Text string }
+type Comment struct {
+	Text string
+	F    bool // built with Commentf("%s", Text) instead of Comment(Text): the same comment value
+}
 
 func (Nil) isNode()      {}
 func (NilStmt) isNode()  {}
@@ -58,6 +61,10 @@ func Line() Tok              { return Tok{Kind: "line"} }
 func Lit(v interface{}) Tok  { return Tok{Kind: "lit", V: v} }
 func LitRune(r rune) Tok     { return Tok{Kind: "rune", V: r} }
 func LitByte(b byte) Tok     { return Tok{Kind: "byte", V: b} }
+
+// Dot is the pair of tokens appended by (*Statement).Dot(name): the delimiter "." and the
+// identifier name. The model reads it as (tx x2e) (id name); the Builder calls Dot itself.
+func Dot(name string) Tok { return Tok{Kind: "dot", S: name} }
 func S(items ...Node) *Stmt  { return &Stmt{Items: items} }
 func G(method string, items ...Node) *Group {
 	return &Group{Method: method, Items: items}
@@ -135,11 +142,20 @@ func (z *Ser) write(b *strings.Builder, n Node) {
 		switch x.Kind {
 		case "id":
 			b.WriteString("(id " + X(x.S) + ")")
+		case "dot":
+			b.WriteString("(tx x2e) (id " + X(x.S) + ")")
 		case "op":
 			b.WriteString("(tx " + X(x.S) + ")")
 		case "line":
 			b.WriteString("(tx x0a)")
 		case "named":
+			if x.S == "Empty" {
+				// Empty() is hand-written (jen/tokens.go), not a row of the generated token
+				// table: an operator token with empty content, which the model reads as (tx x).
+				// The Builder still calls the Empty method itself.
+				b.WriteString("(tx x)")
+				break
+			}
 			b.WriteString("(c " + x.S + ")")
 		case "null":
 			b.WriteString("null")
@@ -272,6 +288,8 @@ func (bd *Builder) Append(s *jen.Statement, it Node) {
 		switch x.Kind {
 		case "id":
 			s.Id(x.S)
+		case "dot":
+			s.Dot(x.S)
 		case "op":
 			s.Op(x.S)
 		case "line":
@@ -329,6 +347,10 @@ func (bd *Builder) Append(s *jen.Statement, it Node) {
 		}
 		s.Tag(mp)
 	case Comment:
+		if x.F {
+			s.Commentf("%s", x.Text)
+			break
+		}
 		s.Comment(x.Text)
 	case *Stmt, *Dict, Nil, NilStmt, NilGroup, nil:
 		s.Add(bd.Code(it))
